@@ -70,7 +70,8 @@ def run(run: common.Run):
         sv[:, 0] = False
         rv = np.ones((ref.h, ref.w), bool)
         rv[rng.randrange(ref.h), rng.randrange(ref.w)] = False
-        descr = [f'REF{k + 1}' for k in range(case['nrb'])] if case['ref_descr'] else None
+        # (every other named reference uses names with underscores, as Landsat / geedim bands have: SR_B4)
+        descr = [(f'SR_B{k + 1}' if case['i'] % 2 else f'REF{k + 1}') for k in range(case['nrb'])] if case['ref_descr'] else None
         pair = fusion.write_pair(tmp, 'c14', src, ref, s, r, sv, rv, ref_kw=dict(descriptions=descr))
         proc_ref = (case['proc'] == 'ref') or (case['proc'] == 'auto' and src.px <= ref.px)
         # the in-painting threshold is a configuration value that is recorded in the parameter image and read back by stats:
